@@ -1683,6 +1683,11 @@ fn single_deviations(base: &[Entry], iscid: &[u8], odcid: &[u8], sender_server: 
 
 fn main() {
     let mut check = Check::from_env("C18", "exploration");
+    // the property promises termination ("decoding terminates ... never loops without consuming
+    // input"): a case that burns 30 s of CPU on an input of at most a datagram (typical: microseconds)
+    // is reported as a violation with the input as replay file
+    check.hang_budget(30, true);
+    check.assume("termination is decided by a CPU budget of 30 s per case on the case's own thread (typical case: microseconds)");
     let _ = LISTED.set(vcore::load_known_findings("C18").into_iter().map(|k| k.signature).collect());
     check.rule(
         "case = wire image of the peer's transport-parameter extension (entries id/encoding/body, tail cut, byte flips) built from a \
